@@ -589,6 +589,9 @@ class YP(object):
             pass
         finally:
             sys.setrecursionlimit(old_recursionlimit)
+            # abandon a query that is still suspended, so that its bindings are undone
+            if hasattr(query, 'close'):
+                query.close()
         return result
 
     def match_dynamic(self, name, args):
